@@ -50,7 +50,7 @@ def wide_scenario(rng):
         if kind == "headeronly":
             sec = scen.headeronly_section(rng, p, rng.choice(["add", "delete", "rename", "mode"]))
         elif kind == "symlink":
-            sec = symlink_section(p, rng.choice(["tgt", "x", "lnk/t"]))
+            sec = symlink_section(p, rng.choice(["tgt", "x", "t.2"]))      # (targets in the directory of the link: a later write through a dangling link into a directory that is missing is outside the model)
         else:
             fmt = "git" if git else rng.choice(["unified", "unified", "context", "normal"])
             if fmt == "normal" and (" " in p or kind in ("add", "delete")):
